@@ -2,5 +2,6 @@ SPECIFICATION TSpec
 CONSTANTS Thorough = FALSE
           MaxSegs = 64
           MaxBytes = 65535
+          CrossSession = FALSE
           Design = "strict"
 CHECK_DEADLOCK FALSE
